@@ -215,6 +215,13 @@ WITNESSES = {
 
 
 def witness(kid):
+    if kid == "KF-F23":
+        fcp = parse('version: "3"\nstruct A { d @0: [[u8, 0]], }\n')
+        try:
+            r = serde.decode(fcp, "A", bytes([0xe8, 0x03, 0x00, 0x00]))      # count 1000, no element data
+            return {"fails": len(r["d"]) > 32, "detail": f"decoded {len(r['d'])} elements from a 4-byte input"}
+        except Exception as e:
+            return {"fails": False, "detail": repr(e)}
     src, name, v = WITNESSES[kid]
     f = check_one(src, name, v, props=("C01",))
     return {"fails": f is not None, "detail": f}
